@@ -108,6 +108,17 @@ Theorem C05_hrr_network_removed_rows_vanish :
 Proof. by move=> R p w wd a; split; [exact: half_im_dc | move=> k; exact: half_im_nyquist]. Qed.
 Print Assumptions C05_hrr_network_removed_rows_vanish.
 
+(* invert_a / invert_b (the unbind options of the HRR network): conjugated input tables bind with the inverse *)
+Theorem C05_hrr_network_with_inverted_inputs :
+  forall (R : rcfType) p (w : R[i]),
+    w ^+ p.+1 = 1 -> w * conjc w = 1 ->
+    (forall j : 'I_p.+1, j != 0 -> \sum_k chi w k j = 0) ->
+    forall ia ib (a b : seq R) (m : 'I_p.+1), size a = p.+1 -> size b = p.+1 ->
+    cconv_net_inv p w ia ib a b m
+    = vnth (hrr_bind_core (if ia then hrr_invert a else a) (if ib then hrr_invert b else b)) m.
+Proof. first [exact: cconv_net_inv_is_binding | by move=> *; exact: cconv_net_inv_is_binding | by intros; eapply cconv_net_inv_is_binding; eauto]. Qed.
+Print Assumptions C05_hrr_network_with_inverted_inputs.
+
 (* non-vacuity: d = 2, w = -1 *)
 Theorem C05_hrr_network_hypotheses_met :
   forall (R : rcfType), let w : R[i] := -1 in
